@@ -736,7 +736,7 @@ class Table(Vector):
 				dtype = self._dtype,
 				name=self._name
 			)
-		if isinstance(key, list) and {type(e) for e in key} == {bool}:
+		if isinstance(key, list) and {type(e) for e in key} <= {bool}:
 			# (a real check, as for a vector: an assert vanishes under python -O)
 			if len(self) != len(key):
 				raise ValueError(f"Boolean mask length mismatch: {len(self)} != {len(key)}")
